@@ -48,6 +48,7 @@ import (
 	"runtime"
 	"sync"
 
+	"github.com/cloudwego/hertz/internal/bytestr"
 	"github.com/cloudwego/hertz/pkg/common/bytebufferpool"
 	errs "github.com/cloudwego/hertz/pkg/common/errors"
 	"github.com/cloudwego/hertz/pkg/common/hlog"
@@ -241,6 +242,12 @@ func Read(resp *protocol.Response, r network.Reader) error {
 // See also WriteTo.
 func Write(resp *protocol.Response, w network.Writer) error {
 	sendBody := !resp.MustSkipBody()
+	if resp.Header.MustSkipContentLength() {
+		// 1xx, 204 and 304 responses end at the header block. A chunked framing that was
+		// announced before the status code was chosen (SetBodyStream(r, -1) followed by
+		// SetStatusCode(204)) must not reach the wire: no chunk will follow it.
+		resp.Header.DelBytes(bytestr.StrTransferEncoding)
+	}
 
 	if resp.IsBodyStream() {
 		return writeBodyStream(resp, w, sendBody)
